@@ -32,7 +32,7 @@ Print Assumptions c18_load_clears_caches.
 (* ... and, composed with the C03 machine: load_state_dict at ANY point of an admissible history
    leaves no cache entry at all (so the next prediction is the fresh object's, C03) *)
 Theorem c18_load_resets_c03_machine :
-  forall fam h, wf_family fam = true -> admissible all_on fam init h = true -> keyed_history fam h = true ->
+  forall fam h, wf_family fam = true -> admissible all_on fam init h = true ->
     cch (run all_on fam init (h ++ [OLoad])) = [] /\
     pv (run all_on fam init (h ++ [OLoad])) = S (pv (run all_on fam init h)).
 Proof. exact load_resets_machine. Qed.
@@ -64,12 +64,11 @@ Print Assumptions c18_roundtrip_lazy_buffer_refuted.
    no caches: after every admissible history, saving the state_dict and loading it (strictly) into an
    object freshly constructed from the current constructor arguments, pickling, and deep-copying all
    yield an object with the same value of EVERY attribute set [rel] and the same eval-mode prediction
-   under every keyed configuration. *)
+   under every configuration. *)
 Theorem c18_persist_any_history :
   forall tf nv h rel c,
     wf_tfam tf = true -> t_lazy tf = [] -> wf_family (t_c03 tf) = true ->
-    admissible all_on (t_c03 tf) init h = true -> keyed_history (t_c03 tf) h = true ->
-    c < f_ncfg (t_c03 tf) -> cfg_keyed (t_c03 tf) c = true ->
+    admissible all_on (t_c03 tf) init h = true -> c < f_ncfg (t_c03 tf) ->
     let p := prun tf nv (pinit tf) h in
     training (p_st p) = false ->
     pobserve tf rel (restore_sd tf p) c = pobserve tf rel p c /\
